@@ -26,7 +26,70 @@ Inductive expr : Type :=
 
 Definition data := list (str * value).
 
-(** [Display for Value] (to_string) on the modelled fragment *)
+(** [{:?}] of a string ([str::escape_debug] between double quotes) on the bytes whose rendering
+    needs no Unicode table: printable ASCII, the named escapes, other ASCII controls as [\u{..}];
+    [None] = outside the modelled fragment (non-ASCII text) *)
+Definition dbg_hexd (n : N) : N := (if n <? 10 then 48 + n else 87 + n)%N.
+Definition dbg_char (c : N) : option str :=
+  (if c =? 34 then Some [92; 34] else if c =? 92 then Some [92; 92]
+   else if c =? 10 then Some [92; 110] else if c =? 13 then Some [92; 114] else if c =? 9 then Some [92; 116]
+   else if c =? 0 then Some [92; 48]
+   else if (32 <=? c) && (c <? 127) then Some [c]
+   else if c <? 16 then Some ([92; 117; 123] ++ [dbg_hexd c] ++ [125])
+   else if c <? 128 then Some ([92; 117; 123] ++ [dbg_hexd (c / 16); dbg_hexd (c mod 16)] ++ [125])
+   else None)%N.
+Fixpoint dbg_chars (s : str) : option str :=
+  match s with
+  | [] => Some []
+  | c :: r => match dbg_char c, dbg_chars r with
+              | Some a, Some b => Some (a ++ b)
+              | _, _ => None
+              end
+  end.
+Definition dbg_string (s : str) : option str :=
+  match dbg_chars s with Some b => Some (34%N :: b ++ [34%N]) | None => None end.
+
+Fixpoint dbg_join (l : list str) : str :=
+  match l with
+  | [] => []
+  | [x] => x
+  | x :: r => x ++ lit ", " ++ dbg_join r
+  end.
+
+(** the derived [Debug] of a [Value], with the members of every object in key order (the model's
+    objects are key-sorted association lists; the implementation sorts since f3ac142) *)
+Fixpoint dbg_value (v : value) : option str :=
+  match v with
+  | VStr s => match dbg_string s with Some b => Some (lit "Str(" ++ b ++ lit ")") | None => None end
+  | VInt z => Some (lit "Int(" ++ Z_to_str z ++ lit ")")
+  | VBool true => Some (lit "Bool(true)")
+  | VBool false => Some (lit "Bool(false)")
+  | VNone => Some (lit "None")
+  | VObj kvs =>
+      let fix go (l : list (str * value)) : option (list str) :=
+        match l with
+        | [] => Some []
+        | (k, x) :: r => match dbg_string k, dbg_value x, go r with
+                         | Some a, Some b, Some c => Some ((a ++ lit ": " ++ b) :: c)
+                         | _, _, _ => None
+                         end
+        end in
+      match go kvs with Some items => Some (lit "Obj({" ++ dbg_join items ++ lit "})") | None => None end
+  | VArr l =>
+      let fix go (l : list value) : option (list str) :=
+        match l with
+        | [] => Some []
+        | x :: r => match dbg_value x, go r with
+                    | Some b, Some c => Some (b :: c)
+                    | _, _ => None
+                    end
+        end in
+      match go l with Some items => Some (lit "Array([" ++ dbg_join items ++ lit "])") | None => None end
+  | VFloat _ | VDate _ | VDur _ => None     (* shortest float form, chrono's Debug *)
+  end.
+
+(** [Display for Value] (to_string) on the modelled fragment: containers print as the [{:?}] of
+    their contents, without the variant name at the top *)
 Definition to_display (v : value) : res str :=
   match v with
   | VStr s => Ok s
@@ -34,7 +97,17 @@ Definition to_display (v : value) : res str :=
   | VBool true => Ok (lit "true")
   | VBool false => Ok (lit "false")
   | VNone => Ok (lit "None")
-  | _ => Unm   (* float shortest form, Debug of dates/durations/containers *)
+  | VObj _ =>
+      match dbg_value v with
+      | Some s => Ok (firstn (length s - 5) (skipn 4 s))         (* drop "Obj(" and ")" *)
+      | None => Unm
+      end
+  | VArr _ =>
+      match dbg_value v with
+      | Some s => Ok (firstn (length s - 7) (skipn 6 s))         (* drop "Array(" and ")" *)
+      | None => Unm
+      end
+  | _ => Unm   (* float shortest form, Debug of dates/durations *)
   end.
 
 Definition is_ascii_str (s : str) : bool := forallb (fun c => (c <? 128)%N) s.
